@@ -631,6 +631,9 @@ func c19Check(ctx *Ctx, idx int, cs c19Case) {
 	}
 	// ---- implementation vs property
 	for _, p := range c19Oracle(cs, obs) {
+		if cs.Safe {
+			p.Class = "" // inside the region the partial theorems cover nothing is excused
+		}
 		if p.Class != "" {
 			rep.Count("known:" + p.Class)
 			// the report keeps a bounded number of failures: record a few witnesses per known
@@ -883,6 +886,10 @@ func c19Corpus() []c19Case {
 		{Label: "corpus/shared-file-two-requests", Ops: `[{"query":"mutation R0 { inc }","variables":{"a":null}},{"query":"mutation R1 { inc }","variables":{"a":null}}]`, Map: `{"0":["0.variables.a","1.variables.a"]}`, Files: f("0"), Steps: [][]string{nil}},
 		{Label: "corpus/top-level-two-steps", Ops: `{"query":"mutation R0 { inc }","variables":{"file":null}}`, Map: `{"0":["variables.file"]}`, Files: f("0"), Steps: [][]string{nil, nil}},
 		{Label: "corpus/nested-two-steps", Ops: `{"query":"mutation R0 { inc }","variables":{"in":{"f":null}}}`, Map: `{"0":["variables.in.f"]}`, Files: f("0"), Steps: [][]string{nil, nil}},
+		// malformed maps: the property says nothing about the answer, but injection must not panic (C19_inject_total)
+		{Label: "corpus/negative-list-index", Ops: `{"query":"mutation R0 { inc }","variables":{"files":[null]}}`, Map: `{"0":["variables.files.-1"]}`, Files: f("0"), Steps: [][]string{nil}},
+		{Label: "corpus/batch-path-index-only", Ops: `[{"query":"mutation R0 { inc }","variables":{"file":null}}]`, Map: `{"0":["0"]}`, Files: f("0"), Steps: [][]string{nil}},
+		{Label: "corpus/batch-index-out-of-range", Ops: `[{"query":"mutation R0 { inc }","variables":{"file":null}}]`, Map: `{"0":["3.variables.file"]}`, Files: f("0"), Steps: [][]string{nil}},
 		{Label: "corpus/list-two-steps", Ops: `{"query":"mutation R0 { inc }","variables":{"files":[null,null]}}`, Map: `{"0":["variables.files.1"]}`, Files: f("0"), Steps: [][]string{{"files"}, {"files"}}},
 	}
 }
@@ -894,7 +901,7 @@ func runC19(ctx *Ctx) error {
 		c19Check(ctx, idx, cs)
 		idx++
 	}
-	safe, wild := 1500*ctx.Budget, 700*ctx.Budget
+	safe, wild := 9000*ctx.Budget, 4000*ctx.Budget
 	for k := 0; k < safe; k++ {
 		c19Check(ctx, idx, c19Gen(ctx.Rand.Fork(), true))
 		idx++
